@@ -1,3 +1,4 @@
+#![allow(static_mut_refs, unused_imports, dead_code, unused_unsafe)]
 // Kani harnesses for src/pbd.rs: the deformer chain walk over a constructed tree
 use super::*;
 
@@ -74,4 +75,29 @@ fn c16p_pipeline_witness() {
     let r = pbd.get_deform_matrices(301, 201);
     core::mem::forget((r, pbd));
     assert!(false);
+}
+
+// ------------------------------------------------------------------------------------- C18
+/// link / item indices taken from the file are used unchecked: a damaged table must not crash
+#[kani::proof]
+#[kani::unwind(20)]
+fn c18_deform_link_index_out_of_range() {
+    let m: [[u32; 12]; 4] = kani::any();
+    let mut pbd = tree(&m);
+    pbd.header.items[2].link_index = 9;
+    let r = pbd.get_deform_matrices(301, 101);
+    kani::cover!(true);
+    core::mem::forget((r, pbd));
+}
+
+/// a parent cycle (C -> B -> C ...) must terminate
+#[kani::proof]
+#[kani::unwind(16)]
+fn c18_deform_parent_cycle_terminates() {
+    let m: [[u32; 12]; 4] = kani::any();
+    let mut pbd = tree(&m);
+    pbd.header.links[3].parent_index = 0; // B's parent is C
+    let r = pbd.get_deform_matrices(301, 101);
+    kani::cover!(true);
+    core::mem::forget((r, pbd));
 }
